@@ -39,6 +39,7 @@ type vhTransport struct {
 	journal    []vhProduced
 	maxCalls   int
 	usedSymbolicCode bool
+	budget     int // number of produce requests whose outcome is nondeterministic (0 = all)
 	fixed      []int // optional scripted outcomes (by produce call index); beyond it outcomes are chosen
 }
 
@@ -70,6 +71,8 @@ func (t *vhTransport) RoundTrip(ctx context.Context, addr net.Addr, req Request)
 		n := len(t.journal)
 		if n < len(t.fixed) {
 			rec.outcome = t.fixed[n]
+		} else if t.budget > 0 && n >= t.budget {
+			rec.outcome = vhAcked // the fault budget is spent: the remaining requests are acknowledged
 		} else {
 			rec.outcome = vhChoose("produce_outcome", vhNumOutcomes)
 		}
